@@ -459,6 +459,18 @@ class Interp:
             raise PathInfeasible()
         if cell.kinds <= LEAF and (isinstance(cell.entry.get("left"), Node) or isinstance(cell.entry.get("right"), Node)):
             raise PathInfeasible()
+        if self.config.get("equal_chain"):
+            # W': the equations of a tree are its top region - an equation is the root or an operand of an equation (the
+            # parser reads "a = b = c" as Equal(Equal(a, b), c); swapping the sides of the outer one puts it on the right)
+            par = cell.entry.get("parent")
+            if isinstance(par, Node) and cell.kinds <= {"EqualExpression"}:
+                self.refine(self.cells[par.cid], frozenset(["EqualExpression"]))
+            if "EqualExpression" not in cell.kinds:
+                for s_ in ("left", "right"):
+                    ch = cell.entry.get(s_)
+                    if isinstance(ch, Node) and not self.cells[ch.cid].fresh:
+                        self.refine(self.cells[ch.cid], self.cells[ch.cid].kinds - {"EqualExpression"})
+            return
         if cell.kinds <= {"EqualExpression"}:
             # W: an equation is the root
             if "parent" in cell.entry:
@@ -515,7 +527,10 @@ class Interp:
             else:
                 for s in ("left", "right"):
                     if s not in cell.entry:
-                        ch = self.new_cell(NON_ROOT_KINDS, False, "child")
+                        ck = NON_ROOT_KINDS
+                        if self.config.get("equal_chain") and "EqualExpression" in cell.kinds:
+                            ck = ALL_KINDS
+                        ch = self.new_cell(ck, False, "child")
                         ch.updepth = cell.updepth - 1
                         self._set_entry(ch, "parent", Node(cell.cid))
                         self._set_entry(cell, s, Node(ch.cid))
@@ -527,12 +542,18 @@ class Interp:
             if cell.updepth < self.max_updepth and (cell.kinds - {"EqualExpression"}):
                 opts.append(("left-of-binary", BIN, "left"))
                 opts.append(("right-child", BIN | UN, "right"))
+            if cell.updepth < self.max_updepth and self.config.get("equal_chain") and "EqualExpression" in cell.kinds:
+                opts.append(("left-of-equation", frozenset(["EqualExpression"]), "left"))
+                opts.append(("right-of-equation", frozenset(["EqualExpression"]), "right"))
             i = self.choose(len(opts), f"parent({cell.cid})", [o[0] for o in opts])
             name, pk, side = opts[i]
             if pk is None:
                 self._set_entry(cell, "parent", None)
                 return None
-            self.refine(cell, cell.kinds - {"EqualExpression"})
+            if name.endswith("-of-equation"):
+                self.refine(cell, frozenset(["EqualExpression"]))
+            else:
+                self.refine(cell, cell.kinds - {"EqualExpression"})
             p = self.new_cell(pk, False, "ctx")
             p.updepth = cell.updepth + 1
             self._set_entry(p, side, Node(cell.cid))
